@@ -423,17 +423,34 @@ STANDINS = {
 }
 
 
+def replay_dir():
+    """the replay crate that builds against REPO: /verif/replay for /repo itself, otherwise (development: seeds and
+    refactorings applied to a scratch copy) a copy of its sources whose dependency path points at that copy"""
+    if REPO == '/repo':
+        return os.path.join(VERIF, 'replay')
+    import hashlib
+    d = os.path.join('/var/tmp', 'verif-replay-' + hashlib.md5(REPO.encode()).hexdigest()[:10])
+    os.makedirs(d, exist_ok=True)
+    src = os.path.join(VERIF, 'replay')
+    if os.path.isdir(os.path.join(d, 'src')):
+        shutil.rmtree(os.path.join(d, 'src'))
+    shutil.copytree(os.path.join(src, 'src'), os.path.join(d, 'src'))
+    toml = open(os.path.join(src, 'Cargo.toml')).read().replace('path = "/repo"', 'path = "%s"' % REPO)
+    open(os.path.join(d, 'Cargo.toml'), 'w').write(toml)
+    if os.path.exists(os.path.join(src, 'Cargo.lock')):
+        shutil.copy(os.path.join(src, 'Cargo.lock'), d)
+    return d
+
+
 def run_standins(pid, tier='quick'):
     """-> (list of evidence dicts, list of (name, counterexample text))"""
     res, cex = [], []
-    if REPO != '/repo':
-        return [{'name': x['name'], 'skipped': 'VERIF_REPO override (stand-ins build against /repo)'} for x in STANDINS.get(pid, [])], []
-    rdir = os.path.join(VERIF, 'replay')
-    env = dict(os.environ, CARGO_NET_OFFLINE='true')
+    rdir = replay_dir()
+    env = dict(os.environ, CARGO_NET_OFFLINE='true', VERIF_REPLAY_OUT=rdir)
     for x in STANDINS.get(pid, []):
         t0 = time.time()
         if x['extract']:
-            e = subprocess.run([sys.executable, os.path.join(HERE, 'extract.py')], stdout=subprocess.PIPE, stderr=subprocess.STDOUT, text=True)
+            e = subprocess.run([sys.executable, os.path.join(HERE, 'extract.py')], env=env, stdout=subprocess.PIPE, stderr=subprocess.STDOUT, text=True)
             if e.returncode != 0:
                 res.append({'name': x['name'], 'error': e.stdout.strip()[:300]})
                 continue
@@ -445,7 +462,8 @@ def run_standins(pid, tier='quick'):
             first = [l for l in out if l.startswith('COUNTEREXAMPLE')][:1]
             p2 = subprocess.run(cmd, cwd=rdir, env=env, stdout=subprocess.PIPE, stderr=subprocess.STDOUT, text=True)
             out2 = p2.stdout.strip().split('\n')
-            if p2.returncode != 1 or [l for l in out2 if l.startswith('COUNTEREXAMPLE')][:1] != first:
+            norm = lambda ls: [re.sub(r'/\S+', '<path>', l) for l in ls]
+            if p2.returncode != 1 or norm([l for l in out2 if l.startswith('COUNTEREXAMPLE')][:1]) != norm(first):
                 res.append({'name': x['name'], 'label': 'BOUNDED (not a proof)', 'bound': x['bound'], 'exit': p2.returncode,
                             'error': 'a counterexample was printed once but not reproduced on a second run (timing): ignored: %s' % (first[0][:200] if first else '')})
                 continue
@@ -709,15 +727,21 @@ def find_witness(pid, tier):
             args = ['cargo', 'run', '--offline', '-q', '--release', '--bin', 'listener', '--', 'all']
         else:
             args = ['cargo', 'run', '--offline', '-q', '--release', '--bin', 'scenarios', '--', 'all'] + (['--quick'] if tier == 'quick' else [])
-        p = subprocess.run(args, cwd=os.path.join(VERIF, 'replay'), env=dict(os.environ, CARGO_NET_OFFLINE='true'),
+        p = subprocess.run(args, cwd=replay_dir(), env=dict(os.environ, CARGO_NET_OFFLINE='true'),
                            stdout=subprocess.PIPE, stderr=subprocess.DEVNULL, text=True)
         _witness_cache[key] = [l for l in p.stdout.split('\n') if l.startswith('WITNESS')]
+        if p.returncode not in (0, 1) and pid in LISTENER_PROPS:
+            # the harness hosts the servers in its own process: an abort (failed allocation) or a panic of the listener thread
+            # that takes the process down is a C05 witness; the last PROBE line names the datagram
+            probes = [l for l in p.stdout.split('\n') if l.startswith('PROBE ')]
+            _witness_cache[key].append('WITNESS property=C05 (1 case(s)); first: %s: the process hosting the server terminated abnormally (exit status %d)'
+                                       % (probes[-1][6:] if probes else 'server config ?: unknown datagram', p.returncode))
     for l in _witness_cache[key]:
         if l.startswith('WITNESS property=%s ' % pid):
             return l.split('first: ', 1)[-1]
     if pid == 'C09':
         # C09 also has a transfer-level aspect (the worker uses the negotiated values): ask the scenario sweep as well
-        p = subprocess.run(['cargo', 'run', '--offline', '-q', '--release', '--bin', 'scenarios', '--', 'C09', '--quick'], cwd=os.path.join(VERIF, 'replay'),
+        p = subprocess.run(['cargo', 'run', '--offline', '-q', '--release', '--bin', 'scenarios', '--', 'C09', '--quick'], cwd=replay_dir(),
                            env=dict(os.environ, CARGO_NET_OFFLINE='true'), stdout=subprocess.PIPE, stderr=subprocess.DEVNULL, text=True)
         for l in p.stdout.split('\n'):
             if l.startswith('WITNESS property=C09 '):
@@ -749,6 +773,7 @@ def main():
     ap.add_argument('--tier', default=os.environ.get('VERIF_TIER', 'quick'))
     ap.add_argument('--keep', action='store_true', help='keep the scratch directory')
     ap.add_argument('--show', action='store_true', help='print every diagnostic')
+    ap.add_argument('--standins', action='store_true', help='run the bounded stand-ins even with --no-evidence (development)')
     ap.add_argument('--no-evidence', action='store_true', help='do not write evidence / replay files (self test)')
     a = ap.parse_args()
     tier = a.tier if a.tier in ('quick', 'thorough') else 'quick'
@@ -928,7 +953,7 @@ def main():
             for k in q_obl:
                 obl.setdefault(k, uni_full.oblig[k])
             witness = None
-            if (new or q_obl) and pid in WITNESS_PROPS and REPO == '/repo':
+            if (new or q_obl) and pid in WITNESS_PROPS:
                 witness = find_witness(pid, tier)
             if q_obl and witness and prc == 0 and not new:
                 rp = '-'
@@ -950,7 +975,7 @@ def main():
                 for d in descs[:3]:
                     print('    %s at %s | %s' % (d['message'], (d.get('primary') or {}).get('where'), (d.get('clause') or {}).get('text', '')))
                 prc = 1
-            if ana['compile_error'] and prc == 0 and pid in WITNESS_PROPS and REPO == '/repo' and obl:
+            if ana['compile_error'] and prc == 0 and pid in WITNESS_PROPS and obl:
                 # the changed code is outside the verifier's reach (unsupported construct / does not compile with the
                 # contracts): no proof either way.  The bounded witness finder stands in; only a concrete failing run
                 # of the real code raises an alarm.
@@ -968,7 +993,7 @@ def main():
                                        'verifier_output': [{'message': x} for x in ana['inconclusive'][:5]]}, f, indent=1)
                     print('VIOLATION property=%s replay=%s stand-in=scenarios (changed code is outside the verifier\'s reach; concrete failing run: %s)' % (pid, rp, w[:200]))
                     prc = 1
-            if undecided_here and prc == 0 and not new and pid in WITNESS_PROPS and REPO == '/repo':
+            if undecided_here and prc == 0 and not new and pid in WITNESS_PROPS:
                 # obligations of this property are undecided (uncontracted helper hides facts, failure inside a new helper,
                 # consequence of a panic obligation): only a concrete failing run of the real code may raise an alarm
                 w = find_witness(pid, tier)
@@ -994,7 +1019,7 @@ def main():
                 if counts['assume('] or counts['admit(']:
                     print('INCONCLUSIVE: assume()/admit() found in the woven crate')
                 prc = 2
-            standins, cexs = run_standins(pid, tier) if not a.no_evidence else ([], [])
+            standins, cexs = run_standins(pid, tier) if (not a.no_evidence or a.standins) else ([], [])
             for (x, text) in cexs:
                 os.makedirs(os.path.join(VERIF, 'replays'), exist_ok=True)
                 rpath = os.path.join(VERIF, 'replays', '%s-%s.json' % (pid, x['name']))
